@@ -278,7 +278,11 @@ Definition C05_oracle_ok (c : C05_case) : bool :=
    4 C05-nackfrag-bitmap-overflow more than 256 fragment numbers between first and last missing one:
                                   index out of bounds while the reader builds its NACK_FRAG
    5 C05-mixed-readerid-truncation fragments of one sample addressed to two readers of one participant
-                                  are both buffered and counted: a truncated payload is delivered *)
+                                  are both buffered and counted: a truncated payload is delivered
+   6 C05-nackfrag-none-missing-panic every fragment number of a sample is buffered but the counted total
+                                  differs from the expected one (copies for two readers, or foreign
+                                  fragments_in_submessage <> 1): never reassembled, and the heartbeat reply
+                                  panics at expect("At least a fragment must be missing") *)
 
 Definition has_fsize0 (ops : list op) : bool :=
   existsb (fun o => match o with OForeign fr => fr_fsize fr =? 0 | _ => false end) ops.
@@ -297,7 +301,8 @@ Definition model_panic_site (c : C05_case) : Z :=
 Definition C05_known (c : C05_case) : N :=
   if negb (o_nopanic c) then
     if has_fsize0 (c_ops c) && ((model_panic_site c =? 28) || (model_panic_site c =? 299)) then 3%N
-    else if model_panic_site c =? 123 then 4%N else 0%N
+    else if model_panic_site c =? 123 then 4%N
+    else if model_panic_site c =? 4 then 6%N else 0%N
   else if negb (o_identity c) then (if has_second_reader_delivery c then 5%N else 0%N)
   else if negb (o_sent c) then 0%N
   else if negb (o_forged c) then 2%N
